@@ -22,6 +22,7 @@ CHECKS = ["C04_NoPanic", "C04_Refusal", "C04_SetPath", "C04_UserPrecedence", "C0
 PLAN = {
     "quick": [
         ("pair",  dict(Full=False, SetPairs=False), None),
+        ("repeat", dict(Full=False, SetPairs=False), None),
         ("cli",   dict(Full=False, SetPairs=False), None),
         ("mdoc",  dict(Full=False, SetPairs=False), None),
         ("deep",  dict(Full=False, SetPairs=False), None),
@@ -33,6 +34,7 @@ PLAN = {
     ],
     "thorough": [
         ("pair",  dict(Full=True, SetPairs=False), None),
+        ("repeat", dict(Full=True, SetPairs=False), None),
         ("cli",   dict(Full=True, SetPairs=False), None),
         ("mdoc",  dict(Full=True, SetPairs=False), None),
         ("deep",  dict(Full=True, SetPairs=False), None),
@@ -49,7 +51,7 @@ SIMS = {
               ("set", dict(Full=True, SetPairs=True), 1000)],
     "thorough": [("flags", dict(Full=True, SetPairs=True), 6000), ("set", dict(Full=True, SetPairs=True), 6000)],
 }
-NSTAGES = {"cli": 6, "mdoc": 4, "pair": 2, "deep": 2, "deepsub": 3, "sub2": 3, "sub3": 4, "flags": 8, "set": 2}
+NSTAGES = {"repeat": 5, "cli": 6, "mdoc": 4, "pair": 2, "deep": 2, "deepsub": 3, "sub2": 3, "sub3": 4, "flags": 8, "set": 2}
 
 # ---------------------------------------------------------------------------------------
 # known findings: recognised by the specific input
@@ -75,6 +77,8 @@ def describe(c):
     ch = " > ".join("%s=%s" % (x["name"], cv(x)) for x in c["charts"])
     fl = " ".join("--%s '%s'" % ({"json": "set-json", "set": "set", "str": "set-string", "file": "set-file", "lit": "set-literal"}[k], e)
                   for k in ("json", "set", "str", "file", "lit") for e in c["flags"].get(k, []))
+    if c.get("fileorder") and c["fileorder"] != list(range(1, len(c["files"]) + 1)):
+        fl = "-f order %s %s" % ("".join(str(i) for i in c["fileorder"]), fl)
     return "charts[%s] files[%s] %s" % (ch, ", ".join(" --- ".join(vl.show(d) for d in c["filedocs"][i]) if i < len(c.get("filedocs") or []) and c["filedocs"][i] else vl.show(f)
                                                         for i, f in enumerate(c["files"])), fl)
 
